@@ -304,7 +304,10 @@ func C01(run *mon.Run) {
 	}
 	var wg sync.WaitGroup
 	sem := make(chan struct{}, 16)
-	for _, t := range triples {
+	for ti, t := range triples {
+		if ti > 0 && ti <= soloWorkers {
+			wg.Wait() // the first workers run alone: their multi-call sequences see no interference through process-wide state
+		}
 		wg.Add(1)
 		sem <- struct{}{}
 		go func(t triple) {
